@@ -57,6 +57,12 @@ def _cb_guid(tree, data):
     return hash(data)
 
 
+def _cb_dict_guid(tree, data):
+    if isinstance(data, dict):
+        return data["guid"]
+    return hash(data)
+
+
 class GuidTree(Tree):
     def calc_data_id(self, data):
         if hasattr(data, "guid"):
@@ -71,7 +77,7 @@ class GuidTypedTree(TypedTree):
         return hash(data)
 
 
-FLAVOURS = ["str", "int", "tuple", "dc", "dictwrap", "obj_cb", "obj_sub", "dict_explicit", "obj_fwd"]
+FLAVOURS = ["str", "int", "tuple", "dc", "dictwrap", "obj_cb", "obj_sub", "dict_explicit", "obj_fwd", "dict_cb"]
 
 
 class Flavour:
@@ -89,6 +95,10 @@ class Flavour:
         if self.name == "obj_cb":
             cls = TypedTree if typed else Tree
             return cls(name, calc_data_id=_cb_guid)
+        if self.name == "dict_cb":
+            # unhashable data objects (plain dicts) identified by a calc_data_id callback, as in the user guide
+            cls = TypedTree if typed else Tree
+            return cls(name, calc_data_id=_cb_dict_guid)
         if self.name == "obj_fwd":
             # attributes of the data objects are readable through the nodes; the objects have an attribute `kind`
             cls = TypedTree if typed else Tree
@@ -118,6 +128,8 @@ class Flavour:
             return Person("g-" + label, label)
         if n == "dict_explicit":
             return {"name": label}
+        if n == "dict_cb":
+            return {"guid": "g-" + label, "name": label}
         raise AssertionError(n)
 
     def data(self, label: str, fresh: bool = False):
@@ -141,7 +153,7 @@ class Flavour:
     def auto_id(self, label: str, data):
         """data_id the documentation promises when no explicit id is given."""
         n = self.name
-        if n in ("obj_cb", "obj_sub", "obj_fwd"):
+        if n in ("obj_cb", "obj_sub", "obj_fwd", "dict_cb"):
             return "g-" + label
         if n == "dict_explicit":
             return "x-" + label  # always passed explicitly
